@@ -210,7 +210,7 @@ def _merge(r, cres, stats, lines, mism, pf, fails, rc1, t0):
     cov["quasi_rule"] = ("bfgs/dfp/sr1/hoshino/fletcher x {identity, scaled} initialisation x (2 of 3 runs: quadratic class "
                          "s*Q*diag*Q' with kappa in {1, 1e3} u log-uniform, s in {1e-3, 1e3} u log-uniform; 1 of 3: a registered "
                          "smooth function) x n in {1,2,3,4,5,6,8,12,16} x epsilon x 1 of 4 a random lsearchk; sr1::r in {1e-8} u "
-                         "[1e-12, 0.9]; lbfgs with history 1..30; the first 24 (thorough: 60) hook events of every run; all from "
+                         "[1e-12, 0.9]; lbfgs with history 1..30; the first 24 (thorough: 40; +24 for lbfgs with history > 6) hook events of every run; all from "
                          "VERIF_SEED. evaluations below = hook events recomputed by the model")
     cov["evaluations"] = cov.get("evaluations", 0) + stats.get("checked", 0)
     cov["quasi_samples"] = [l[:300] for l in lines if l.startswith(("QRUN 0 ", "QU 0 0 ", "QRUN 50 ", "LD 50 1 "))][:4]
